@@ -98,14 +98,4 @@ func init() {
 	}
 }
 
-// symRegexMatch / symRegexFindIndex: symbolic subjects are enumerated by forking over
-// the regexp's behaviour on each candidate — not available in general.
-func (m *Machine) symRegexMatch(re *regexp.Regexp, s Str) Value {
-	panic(m.unsupported("regexp " + re.String() + " on symbolic string"))
-}
-
-func (m *Machine) symRegexFindIndex(re *regexp.Regexp, s Str) Value {
-	panic(m.unsupported("regexp " + re.String() + " on symbolic string"))
-}
-
 var _ = smt.Bool
